@@ -4,7 +4,7 @@ from checks.engine_common import run_engine
 META = {
     "property_id": "C03",
     "technique": "Coq proof over a Gallina model of the build engine + history correspondence with fresh-process builds",
-    "level_text": 'Correspondence + oracle: builds killed at every kind of persistence hook (record mkdir/create/write/close/rename, before/after body, index create/write) under a one-slot runner, then recovery build compared with the model (which takes the observed ran/recorded sets as the crash description) and with a from-scratch build; failing bodies; records always loadable. Theorems: the crash semantics of the model quantifies over every subset of started/recorded targets; see Props_C03.v.',
+    "level_text": "Theorems: up_to_date_only_with_current_stamp (for ANY record contents a target is reported up to date only if its own record carries the stamp of its present environment and no re-run mark), crash_preserves_record_truth, recovery_is_never_stale, failed_body_reruns; the model's crash semantics quantifies over every subset of started/recorded targets. Correspondence + oracle: builds killed at every kind of persistence hook (record mkdir/create/write/close/rename, before/after body, index create/write) under a one-slot runner, then the recovery build compared with the model and with a from-scratch build; failing bodies; records always loadable.",
     "level_note": 'Trusted: as C01; only process death at hook points is covered (no power loss / fs reordering); rename(2) atomic.',
     "design_ref": "DESIGN.md §6 C03",
 }
